@@ -533,7 +533,7 @@ def judge(ctx, key, fields, inp, results, stats, origin, ext=None):
             continue
         if st in ("dotted", "inner") and ext is None and ctx.is_open(F_SUBGROUPNULL) and nulls_subclass_group_member(inp, key, fields):
             ctx.known(F_SUBGROUPNULL, "a required class-typed member declared with add_subclass_arguments(required=True) (dotted / inner-parser styles) accepts `--key.member=null` "
-                                      "on the command line (the requirement is checked at the end only); the signature styles reject the null at once")
+                                      "on the command line or through the member's environment variable (the requirement is checked at the end only); the signature styles reject the null at once")
             stats["known"] += 1
             continue
         if st == "inner" and ext is None and ctx.is_open(F_INNERHELP) and abbreviates_class_member(inp, key, fields):
@@ -550,8 +550,13 @@ def judge(ctx, key, fields, inp, results, stats, origin, ext=None):
 def nulls_subclass_group_member(inp, key, fields):
     """the command line gives `null` to a REQUIRED class-typed member that the dotted / inner styles declare with add_subclass_arguments, and a later item
     gives the member a value again (so that the end-of-parse requirement is met)"""
-    members = ["--%s.%s" % (key, f["name"]) for f in fields if f.get("ty") == "cls" and f["node"].get("via") == "subclass_group" and f["node"]["req"]]
-    return any(a.partition("=")[0] in members and a.partition("=")[2] == "null" for a in inp["argv"])
+    req = [f["name"] for f in fields if f.get("ty") == "cls" and f["node"].get("via") == "subclass_group" and f["node"]["req"]]
+    members = ["--%s.%s" % (key, n) for n in req]
+    if any(a.partition("=")[0] in members and a.partition("=")[2] == "null" for a in inp["argv"]):
+        return True
+    # the same null through the member's environment variable (read before the command line, which then re-assigns the member)
+    env_names = {("%s__%s" % (key, n)).upper() for n in req}
+    return any(v == "null" and any(k.upper().endswith(e) for e in env_names) for k, v in (inp.get("env") or {}).items())
 
 
 def abbreviates_class_member(inp, key, fields):
